@@ -59,7 +59,6 @@ def run(ctx):
         return
     quick = ctx.tier == "quick"
     rng = ctx.rng
-    ctx.classifiers["nullable_container"] = lambda case: isinstance(case, tuple) and has_nullable_container(case[0])
     ctx.extra["rule"] = ("rule-free schemas (objects/arrays/scalars to depth 5, any mix of optional true/false/absent, nullable, type any) printed as JSight text in random rule order; "
                          "documents = conforming instances and their typed mutations (drop/add/duplicate/reorder key, int<->float, kind swap, null injection at every position, array "
                          "truncate/extend beyond the example, deep payloads under any, escaped key spellings) and unrelated documents; both key-optionality configurations; verdict and "
@@ -102,7 +101,7 @@ def run(ctx):
                 ctx.evaluations += 1
                 got = "ok" if r[1] == "ok" else r[1].split("@")[0]
                 if r[0] != "ok" or got != c["expect"]:
-                    w = J.W("O", nullable=True) if "nullable-container" in f else None
+                    w = None
                     ctx.report("corpus case %s: Check %s, Validate %s, expected %s: schema %r document %r" % (f, r[0], r[1], c["expect"], c["schema"][:100], c["document"][:60]),
                                "c01corpus:" + c["schema"] + "|" + c["document"], dict(c, implementation=r), case=(w, None) if w else None)
     run_cases(ctx, "generated", cases)
